@@ -94,8 +94,26 @@ class FakeCtx:
         return P()
 
 
+def input_names(case: dict) -> list[str]:
+    """file names whose LEXICOGRAPHIC order is the order of case["files"] (commands that read a directory number the
+    molecules in sorted-name order), in three schemes: zero-padded; un-padded numbers straddling a digit boundary
+    (chunk-10 < chunk-11 < chunk-8 < chunk-9: natural order differs); names of different lengths"""
+    n = len(case["files"])
+    scheme = (sum(len(f) for f in case["files"]) + n) % 3
+    if scheme == 0:
+        return [f"in-{i:03d}.npy" for i in range(n)]
+    if scheme == 1:
+        return sorted(f"chunk-{8 + j}.npy" for j in range(n))
+    r = random.Random(n * 7919 + case["F"])
+    names = set()
+    while len(names) < n:
+        names.add("".join(r.choice("abcxyz") for _ in range(r.randint(1, 9))) + ".npy")
+    return sorted(names)
+
+
 def write_inputs(case: dict, d: Path) -> list[Path]:
     paths = []
+    names = input_names(case)
     for i, rows in enumerate(case["files"]):
         X = np.asarray(rows, dtype=np.uint8).reshape(len(rows), case["F"])
         if case["packed"]:
@@ -103,7 +121,7 @@ def write_inputs(case: dict, d: Path) -> list[Path]:
         if case.get("dup") and i == case["dup"][1]:
             paths.append(paths[case["dup"][0]])
             continue
-        p = d / f"in-{i:03d}.npy"
+        p = d / names[i]
         np.save(p, X)
         paths.append(p)
     return paths
